@@ -649,6 +649,15 @@ func (tdsChan *Channel) sendPacket(packet *Packet) error {
 	return nil
 }
 
+// queueError records an error for the consumer. The error is dropped if
+// the channel is being closed while the error queue is full.
+func (tdsChan *Channel) queueError(err error) {
+	select {
+	case tdsChan.errCh <- err:
+	case <-tdsChan.closing:
+	}
+}
+
 // deliver passes a package to the consumer. It returns false if the
 // channel is being closed while the package queue is full.
 func (tdsChan *Channel) deliver(pkg Package) bool {
@@ -726,7 +735,7 @@ func (tdsChan *Channel) tryParsePackage() bool {
 	// Create Package.
 	pkg, err := LookupPackage(Token(tokenByte))
 	if err != nil {
-		tdsChan.errCh <- err
+		tdsChan.queueError(err)
 		return false
 	}
 
@@ -737,7 +746,7 @@ func (tdsChan *Channel) tryParsePackage() bool {
 
 	if acceptor, ok := pkg.(LastPkgAcceptor); ok {
 		if err := acceptor.LastPkg(tdsChan.lastPkgRx); err != nil {
-			tdsChan.errCh <- fmt.Errorf("error in LastPkg: %w", err)
+			tdsChan.queueError(fmt.Errorf("error in LastPkg: %w", err))
 			return false
 		}
 	}
@@ -750,7 +759,7 @@ func (tdsChan *Channel) tryParsePackage() bool {
 		}
 
 		// Parsing went wrong, record as error
-		tdsChan.errCh <- fmt.Errorf("error parsing package %T: %w", pkg, err)
+		tdsChan.queueError(fmt.Errorf("error parsing package %T: %w", pkg, err))
 		return false
 	}
 
@@ -760,7 +769,7 @@ func (tdsChan *Channel) tryParsePackage() bool {
 
 	pass, err := tdsChan.handleSpecialPackage(pkg)
 	if err != nil {
-		tdsChan.errCh <- fmt.Errorf("error while handling special package: %w", err)
+		tdsChan.queueError(fmt.Errorf("error while handling special package: %w", err))
 		// Package handling errored, but the package could be parsed.
 		// Continue.
 		return true
